@@ -177,12 +177,17 @@ class Run:
             if name in ("numpy.abs", "numpy.absolute") and isinstance(a0, (X, PV)) and all(isinstance(l, X) or isinstance(l, Mismatch) for _, l in pv_leaves(a0)):
                 return pv_apply(lambda x: x if is_opaque(x) else x.abs(), a0)
             if name in ("numpy.conj", "numpy.conjugate") and isinstance(a0, Grid): return a0.map(_cj)
-            if name == "numpy.zeros":
+            if name in ("numpy.zeros", "numpy.ones", "numpy.empty", "numpy.full"):
                 shp = a0 if isinstance(a0, tuple) else (a0,)
                 xs = [to_x(e) for e in shp]
+                fillv = {"numpy.zeros": X.const(0), "numpy.ones": X.const(1), "numpy.empty": Opaque("uninitialised element (np.empty)"),
+                         "numpy.full": to_x(args[1]) if len(args) > 1 and to_x(args[1]) is not None else Opaque("np.full value")}[name]
                 if xs and xs[-1] is not None and xs[-1].eq(X.var("nf")) and all(x is not None and x.as_int() is not None for x in xs[:-1]):
                     lead = tuple(x.as_int() for x in xs[:-1])
-                    return Grid(lead) if lead else X.const(0)
+                    if not lead: return fillv
+                    g = Grid(lead)
+                    for ix in g.indices(): g.cells[ix] = fillv
+                    return g
                 return NotImplemented
             if name == "numpy.array" and isinstance(a0, Obj) and a0.cls == "zeros-list": return X.const(0)
             if name in ("numpy.asarray", "numpy.array") and isinstance(a0, X): return a0
@@ -190,6 +195,10 @@ class Run:
                 if a0.iszero(): return False
                 c = Cond.get(("any", a0.keystr()), f"any({a0!r} != 0 over the bins)")
                 return PV(c, True, False)
+            if name == "numpy.mean" and isinstance(a0, Grid) and a0.shape:
+                tot = lib(I, "numpy.sum", args, kw, st, n)
+                if is_opaque(tot) or tot is NotImplemented: return tot
+                return lift2("/", tot, X.const(a0.shape[0])) if isinstance(tot, (X, PV)) else (tot.map(lambda v: lift2("/", v, X.const(a0.shape[0]))) if isinstance(tot, Grid) else Opaque("np.mean of a grid"))
             if name == "numpy.sum" and isinstance(a0, Grid):
                 ax = to_x(kw.get("axis", args[1] if len(args) > 1 else None))
                 if ax is None or ax.as_int() != 0 or not a0.shape: return Mismatch("np.sum over a Grid along an axis other than 0")
@@ -207,6 +216,8 @@ class Run:
                 A, b = a0, args[1]
                 if len(A.shape) != 2 or A.shape[0] != A.shape[1] or b.shape != (A.shape[0],): return Mismatch("linalg.solve on non-square system")
                 n_ = A.shape[0]
+                if all(isinstance(A.cells[(r, c)], X) and A.cells[(r, c)].iszero() for r in range(n_) for c in range(n_)):
+                    return Mismatch("np.linalg.solve of an identically zero matrix (the input spectra were never stored in it): LinAlgError / H = 0 for every record")
                 try: sol = cramer([[A.cells[(r, c)] for c in range(n_)] for r in range(n_)], [b.cells[(r,)] for r in range(n_)])
                 except Unknown as ex: return Opaque(str(ex))
                 return Grid((n_,), {(r,): sol[r] for r in range(n_)}, bins=False)
@@ -238,6 +249,8 @@ class Run:
                 if len(a0.shape) != 2 or a0.shape[0] != a0.shape[1]: return Mismatch("pinv of non-square")
                 n_ = a0.shape[0]
                 A = [[a0.cells[(r, c)] for c in range(n_)] for r in range(n_)]
+                if all(isinstance(e, X) and e.iszero() for row in A for e in row):
+                    return Grid((n_, n_), None, bins=False)          # pinv(0) = 0
                 cols = []
                 try:
                     for j in range(n_):
